@@ -1045,3 +1045,76 @@ N('event-queue-trim-as-drain', ['C12', 'C18'], P2P,
             let excess = self.event_queue.len() - MAX_EVENT_QUEUE_SIZE;
             self.event_queue.drain(..excess);
         }""", 'cap loop written as one drain')
+
+SOCK = 'src/network/udp_socket.rs'
+M('S-malformed-datagram-ends-receive', 'C08', 'C08.O6', SOCK,
+  """                    if let Ok(msg) = bincode::deserialize(&self.buffer[0..number_of_bytes]) {
+                        received_messages.push((src_addr, msg));
+                    }""",
+  """                    match bincode::deserialize(&self.buffer[0..number_of_bytes]) {
+                        Ok(msg) => received_messages.push((src_addr, msg)),
+                        Err(err) => {
+                            warn!("Dropping malformed packet from {src_addr}: {err}");
+                            return received_messages;
+                        }
+                    }""", 'a malformed datagram ends the receive loop: valid packets queued behind it wait for the next poll (and a flood of garbage starves the session)')
+M('S-unexpected-error-drops-collected', 'C08', 'C08.O6', SOCK,
+  """                    warn!("Unexpected error receiving UDP packet: {err}");
+                    return received_messages;""",
+  """                    warn!("Unexpected error receiving UDP packet: {err}");
+                    return Vec::new();""", 'messages collected before an unexpected socket error are dropped')
+M('S-parse-whole-buffer', 'C08', 'C08.O6', SOCK,
+  """bincode::deserialize(&self.buffer[0..number_of_bytes])""", """bincode::deserialize(&self.buffer[..])""", 'stale bytes of an earlier, longer datagram are parsed as part of this one')
+N('socket-match-instead-of-if-let', ['C08', 'C03', 'C01'], SOCK,
+  """                    if let Ok(msg) = bincode::deserialize(&self.buffer[0..number_of_bytes]) {
+                        received_messages.push((src_addr, msg));
+                    }""",
+  """                    match bincode::deserialize(&self.buffer[0..number_of_bytes]) {
+                        Ok(msg) => received_messages.push((src_addr, msg)),
+                        Err(_) => continue,
+                    }""", 'if-let written as a match with an explicit continue')
+N('skip-frames-unsigned-abs', ['C15'], P2P,
+  """                skip_frames: self
+                    .frames_ahead
+                    .try_into()
+                    .expect("frames ahead is negative despite being positive."),""",
+  """                skip_frames: self.frames_ahead.unsigned_abs(),""", 'try_into().expect() of a value known to be >= 3 written as unsigned_abs()')
+
+# ---------------------------------------------------------------- round 6
+N('add-remote-input-via-helper', ALL, SL,
+  """        self.input_queues[player_handle].add_input(input);
+    }
+
+    /// Returns inputs for all players for the current frame of the sync layer.""",
+  """        self.queue_of(player_handle).add_input(input);
+    }
+
+    fn queue_of(&mut self, player_handle: PlayerHandle) -> &mut InputQueue<T> {
+        &mut self.input_queues[player_handle]
+    }
+
+    /// Returns inputs for all players for the current frame of the sync layer.""", 'queue lookup extracted into a helper')
+N('register-local-inputs-logging', ALL, P2P,
+  """            let actual_frame = self.sync_layer.add_local_input(handle, player_input);
+            if actual_frame != NULL_FRAME {""",
+  """            let actual_frame = self.sync_layer.add_local_input(handle, player_input);
+            trace!("local input of player {} registered for frame {}", handle, actual_frame);
+            if actual_frame != NULL_FRAME {""", 'logging added inside a loop over a map-ordered vector')
+N('status-write-from-actual-frame', ALL, P2P,
+  """                self.local_connect_status[handle].last_frame = queued_input.frame;""",
+  """                self.local_connect_status[handle].last_frame = actual_frame;""", 'the same value under its other name')
+M('M-remote-input-window-check', ['C04', 'C03'], ['C04.M', 'C03.M'], SL,
+  """        self.input_queues[player_handle].add_input(input);
+    }
+
+    /// Returns inputs for all players for the current frame of the sync layer.""",
+  """        if input.frame > self.current_frame + 2 * self.max_prediction as i32 + 64 {
+            return; // nobody can be that far ahead
+        }
+        self.input_queues[player_handle].add_input(input);
+    }
+
+    /// Returns inputs for all players for the current frame of the sync layer.""", 'a "sanity check" drops remote inputs after the session recorded them as received')
+M('W-mixing-delay-capped', ['C13', 'C16'], ['C13.W', 'C16.W'], SYNCT,
+  """            sync_layer.set_frame_delay(i, input_delay);""",
+  """            sync_layer.set_frame_delay(i, input_delay.min(max_prediction));""", 'the configured input delay silently capped at the prediction window')
